@@ -6,13 +6,17 @@ package limit
 // PeriodLimit and TestVerifC08Token those of spec/TokenLimitGen.tla on the real TokenLimiter,
 // both over a miniredis server (the Lua scripts run in miniredis' gopher-lua).  The server
 // clock of the model is miniredis' FastForward (TTLs move only through it), the caller clock
-// is the `now` handed to AllowN, outages are Close()/Restart().  After every step the
+// is the `now` handed to AllowN, outages are Close()/Restart() (or, for every other behaviour of the
+// outage-duration family, a server that drops every connection), `hold` steps let real time pass
+// during an outage (outage DURATION: the monitor lives on a wall-clock ticker).  After every step the
 // observable result (code of a take, multiset of codes of a concurrent burst, grant decision,
 // whether the request reached Redis) is compared with the specification's prediction.
 
 import (
+	"bufio"
 	"context"
 	"fmt"
+	"net"
 	"runtime"
 	"sort"
 	"strings"
@@ -586,7 +590,7 @@ rounds:
 				return false
 			})
 			if !back {
-				if !redis.New(s.Addr()).Ping() {
+				if !c08RawPing(s.Addr()) {
 					v = kit.Verdict{Case: 0, Infra: true, Msg: "server not reachable while waiting for the limiter"}
 					break rounds
 				}
@@ -608,12 +612,51 @@ rounds:
 type c08Server struct {
 	s        *miniredis.Miniredis
 	evals    atomic.Int64
-	pings    atomic.Int64
+	pings    atomic.Int64 // PINGs without argument: the limiter's monitor (the driver's own probes carry an argument)
 	mu       sync.Mutex
 	lastEval []string         // arguments of the last EVAL that reached the server
 	byKey    map[string]int64 // EVALs per first key (= "{name}.tokens" for the token limiter)
 	kill     atomic.Bool      // outage without closing the listener: every command's connection is dropped
 	lost     string           // the server could not be brought back after a behaviour (see c08Restart)
+	addr     string           // the server's address (Addr() cannot be asked while the server is closed)
+	dropMode bool             // outages of this server are "every connection dropped" (listener kept) instead of Close/Restart
+}
+
+// down / up: the two kinds of outage.  Close/Restart: connections are refused (and the port is given up for the
+// time of the outage); dropMode: the listener stays, every command's connection is closed before the command runs.
+func (cs *c08Server) down() {
+	if cs.dropMode {
+		cs.kill.Store(true)
+		return
+	}
+	cs.s.Close()
+}
+
+func (cs *c08Server) up() error {
+	if cs.dropMode {
+		cs.kill.Store(false)
+		return nil
+	}
+	if err := c08Restart(cs.s); err != nil {
+		return err
+	}
+	cs.hook()
+	return nil
+}
+
+// portTaken: during a Close/Restart outage somebody else may have started to listen on the server's port (another
+// miniredis of a parallel run, say) and answer the limiter in the server's place.  A behaviour during which that
+// is seen is disturbed, not judged.
+func (cs *c08Server) portTaken() bool {
+	if cs.dropMode {
+		return false
+	}
+	c, err := net.DialTimeout("tcp", cs.addr, time.Second)
+	if err != nil {
+		return false
+	}
+	c.Close()
+	return true
 }
 
 func (cs *c08Server) evalsOf(key string) int64 {
@@ -623,6 +666,7 @@ func (cs *c08Server) evalsOf(key string) int64 {
 }
 
 func (cs *c08Server) hook() {
+	cs.addr = cs.s.Addr()
 	cs.s.Server().SetPreHook(func(peer *server.Peer, cmd string, args ...string) bool {
 		if cs.kill.Load() {
 			peer.Close()
@@ -641,25 +685,61 @@ func (cs *c08Server) hook() {
 			}
 			cs.mu.Unlock()
 		case "PING":
-			cs.pings.Add(1)
+			if len(args) == 0 {
+				cs.pings.Add(1)
+			}
 		}
 		return false
 	})
 }
 
-// monitorIdle is the barrier after Up: the limiter's monitor has seen a successful ping
-// (redisAlive = 1) and has ended.  It reads the limiter's fields only to wait, never to judge.
-// c08Reachable: after a Restart go-redis' pool may keep answering with a cached dial error until its
-// background re-dial (1 s period) succeeds; the next model step must not start before the client can
-// reach the server again (a wait that is part of the Up step, like the wait for the monitor's ping).
-func c08Reachable(s *miniredis.Miniredis) bool {
-	return kit.WaitFor(30*time.Second, func() bool {
-		if redis.New(s.Addr()).Ping() {
+// c08RawPing: a PING of the driver's own, over a connection of its own (no client library, no wrapper,
+// no breaker): "the Redis server answers".  It carries an argument, so the server's hook does not take it
+// for a ping of the limiter's monitor.
+func c08RawPing(addr string) bool {
+	c, err := net.DialTimeout("tcp", addr, 2*time.Second)
+	if err != nil {
+		return false
+	}
+	defer c.Close()
+	c.SetDeadline(time.Now().Add(2 * time.Second))
+	if _, err := c.Write([]byte("*2\r\n$4\r\nPING\r\n$8\r\nc08probe\r\n")); err != nil {
+		return false
+	}
+	rd := bufio.NewReader(c)
+	l1, err := rd.ReadString('\n')
+	if err != nil || !strings.HasPrefix(l1, "$8") {
+		return false
+	}
+	l2, err := rd.ReadString('\n')
+	return err == nil && strings.HasPrefix(l2, "c08probe")
+}
+
+// c08Reachable: after an outage the next model step must not start before (a) the server answers a direct
+// PING of the driver and (b) the client library can reach it again - after a Restart go-redis' pool may keep
+// answering with a cached dial error until its background re-dial (1 s period) succeeds.  (b) is asked with
+// a GET through the wrapper, not with the wrapper's Ping, which is what the limiter's monitor relies on.
+// Returns "" or what could not be reached (harness trouble in both cases).
+func c08Reachable(s *miniredis.Miniredis) string {
+	if !kit.WaitFor(30*time.Second, func() bool {
+		if c08RawPing(s.Addr()) {
 			return true
 		}
 		time.Sleep(10 * time.Millisecond)
 		return false
-	})
+	}) {
+		return "server does not answer a direct PING 30 s after the end of the outage"
+	}
+	if !kit.WaitFor(30*time.Second, func() bool {
+		if _, err := redis.New(s.Addr()).Get("c08:probe"); err == nil {
+			return true
+		}
+		time.Sleep(10 * time.Millisecond)
+		return false
+	}) {
+		return "server answers a direct PING but the client library cannot reach it 30 s after the end of the outage"
+	}
+	return ""
 }
 
 // c08Restart: Restart listens on the port the server had; if another process has grabbed the port in
@@ -677,6 +757,8 @@ func c08Restart(s *miniredis.Miniredis) error {
 	}
 }
 
+// monitorIdle is the barrier after Up: the limiter's monitor has seen a successful ping
+// (redisAlive = 1) and has ended.
 func monitorIdle(tl *TokenLimiter) bool {
 	if atomic.LoadUint32(&tl.redisAlive) != 1 {
 		return false
@@ -686,24 +768,91 @@ func monitorIdle(tl *TokenLimiter) bool {
 	return !tl.monitorStarted
 }
 
+func c08MonitorStarted(tl *TokenLimiter) bool {
+	tl.rescueLock.Lock()
+	defer tl.rescueLock.Unlock()
+	return tl.monitorStarted
+}
+
 const c08Base = 1_700_000_000 // caller second 0 of the model
 
 // once a limiter failed to return to Redis the remaining behaviours of this process do not wait
-// the full barrier time again (the verdict is already negative; this only bounds the run time)
+// the full time again (the verdict is already negative; this only bounds the run time)
 var c08NoReturnSeen atomic.Bool
 
-func c08BarrierTime() time.Duration {
+func c08ReturnBound() time.Duration {
 	if c08NoReturnSeen.Load() {
 		return 300 * time.Millisecond
 	}
 	return 10 * time.Second
 }
 
+const (
+	c08Returned    = iota // the monitor's ping succeeded, the limiter is back on Redis
+	c08NotReturned        // Redis answers, the limiter stays away from it: the disagreement
+	c08Unreachable        // the server does not answer the driver either: harness trouble
+)
+
+// c08AwaitReturn is the second half of the model's macro-step Up;Ping: "returns to Redis once it answers
+// again".  The monitor pings every 100 ms of wall-clock time, so the step has to wait; what it waits for
+// is the limiter being back (monitorIdle).  While it waits the driver keeps asking the server itself, with
+// direct PINGs at the monitor's own pace.  The limiter has NOT returned if the server has answered an
+// unbroken series of those PINGs stretching over the whole bound (a hundred times the monitor's ping
+// interval) and the limiter is still in fallback mode - however many pings of the monitor the server saw,
+// none included.  If the server does not answer the driver either, nothing can be said about the limiter.
+func c08AwaitReturn(tl *TokenLimiter, cs *c08Server) (res int, probes int, over time.Duration) {
+	bound := c08ReturnBound()
+	need := int(bound / (200 * time.Millisecond))
+	if need < 2 {
+		need = 2
+	}
+	start := time.Now()
+	last := start
+	var first time.Time // start of the current unbroken series of answered probes
+	for i := 0; ; i++ {
+		if monitorIdle(tl) {
+			return c08Returned, probes, 0
+		}
+		now := time.Now()
+		if now.Sub(last) >= pingInterval {
+			last = now
+			if c08RawPing(cs.addr) {
+				if probes == 0 {
+					first = now
+				}
+				probes++
+			} else {
+				probes = 0
+			}
+			if probes >= need && now.Sub(first) >= bound {
+				if monitorIdle(tl) {
+					return c08Returned, probes, 0
+				}
+				return c08NotReturned, probes, now.Sub(first)
+			}
+		}
+		if now.Sub(start) >= bound+30*time.Second {
+			return c08Unreachable, probes, 0
+		}
+		if i < 200 {
+			runtime.Gosched()
+		} else {
+			time.Sleep(200 * time.Microsecond)
+		}
+	}
+}
+
+const c08PortTaken = "disturbed: somebody else listened on the server's port during the outage"
+
+func c08Rerun(v kit.Verdict) bool {
+	return v.Infra && (v.Msg == c08Disturbed || v.Msg == c08PortTaken)
+}
+
 func runC08TokenRetry(c kit.Case, cs *c08Server, store *redis.Redis, rep *kit.Reporter) kit.Verdict {
 	var v kit.Verdict
 	for attempt := 0; attempt < 4; attempt++ {
 		v = runC08Token(c, cs, store, rep, attempt)
-		if !(v.Infra && v.Msg == c08Disturbed) || cs.lost != "" {
+		if !c08Rerun(v) || cs.lost != "" {
 			return v
 		}
 		rep.Count("disturbed-reruns", 1)
@@ -713,7 +862,11 @@ func runC08TokenRetry(c kit.Case, cs *c08Server, store *redis.Redis, rep *kit.Re
 
 func runC08Token(c kit.Case, cs *c08Server, store *redis.Redis, rep *kit.Reporter, attempt int) (v kit.Verdict) {
 	v = kit.Verdict{Case: c.Index, OK: true}
+	alive, outages := true, false
 	fail := func(step int, key, msg string) kit.Verdict {
+		if !alive && cs.portTaken() {
+			return kit.Verdict{Case: c.Index, Infra: true, Msg: c08PortTaken}
+		}
 		v.OK, v.Step, v.Key, v.Msg = false, step, key, msg
 		return v
 	}
@@ -726,26 +879,29 @@ func runC08Token(c kit.Case, cs *c08Server, store *redis.Redis, rep *kit.Reporte
 	rate, burst := kit.Num(c.Steps[0]["rate"]), kit.Num(c.Steps[0]["burst"])
 	tl := NewTokenLimiter(rate, burst, store, fmt.Sprintf("t%d.%d", c.Index, attempt))
 	cfg := fmt.Sprintf("rate=%d burst=%d", rate, burst)
-	alive := true
 	defer func() {
 		// leave the server up and the monitor goroutine finished for the next case
 		if !alive {
-			if err := c08Restart(s); err == nil {
-				cs.hook()
-			} else {
+			if err := cs.up(); err != nil {
 				cs.lost = "miniredis restart: " + err.Error() // no server for the remaining behaviours: harness trouble
 				return
 			}
 		}
-		if !c08Reachable(s) {
-			cs.lost = "server not reachable 30 s after restart"
+		if !outages {
+			return // the server was never away, no monitor was ever started
+		}
+		if what := c08Reachable(cs.s); what != "" {
+			cs.lost = what
 			return
 		}
-		kit.WaitFor(c08BarrierTime(), func() bool { return monitorIdle(tl) })
+		kit.WaitFor(c08ReturnBound(), func() bool { return monitorIdle(tl) })
 	}()
 	now := int64(0)
 	nallow := 0
 	trail := []string{}
+	// real time, for the message and the coverage counters only: when the current outage began and when the
+	// first request failed in it (= the monitor's start, every Up of the model ends the monitor)
+	var tDown, tFail time.Time
 	// observed grants per deciding bucket, for the statement's bound burst + rate*t
 	type grant struct{ t, n int64 }
 	grants := map[string][]grant{}
@@ -779,6 +935,9 @@ func runC08Token(c kit.Case, cs *c08Server, store *redis.Redis, rep *kit.Reporte
 			if reached > 1 {
 				return infra(c08Disturbed)
 			}
+			if !alive && tFail.IsZero() {
+				tFail = time.Now()
+			}
 			v.Steps++
 			want, via := kit.Bool(st["granted"]), kit.Str(st["via"])
 			rep.Count("allow."+via, 1)
@@ -811,34 +970,65 @@ func runC08Token(c kit.Case, cs *c08Server, store *redis.Redis, rep *kit.Reporte
 			v.Steps++
 			trail = append(trail, fmt.Sprintf("tick(%d,%d)", kit.Num(st["dc"]), kit.Num(st["ds"])))
 		case "down":
-			s.Close()
-			alive = false
+			cs.down()
+			alive, outages = false, true
+			tDown, tFail = time.Now(), time.Time{}
 			v.Steps++
 			rep.Count("down", 1)
 			trail = append(trail, "down")
+		case "hold":
+			// real time passes during the outage (at least ms milliseconds; nothing depends on how much more)
+			ms := kit.Num(st["ms"])
+			if alive {
+				return infra("hold outside an outage")
+			}
+			time.Sleep(time.Duration(ms) * time.Millisecond)
+			v.Steps++
+			rep.Count("hold", 1)
+			if tFail.IsZero() {
+				rep.Count("hold.outage-not-yet-noticed", 1)
+			} else {
+				rep.Count("hold.monitor-running", 1)
+			}
+			trail = append(trail, fmt.Sprintf("hold(%dms)", ms))
 		case "up":
-			if err := c08Restart(s); err != nil {
+			if !alive && cs.portTaken() {
+				return infra(c08PortTaken)
+			}
+			if err := cs.up(); err != nil {
 				return infra("miniredis restart: " + err.Error())
 			}
-			cs.hook()
+			s = cs.s
 			alive = true
 			v.Steps++
 			trail = append(trail, "up")
-			if !c08Reachable(s) {
-				return infra("server not reachable 30 s after restart")
+			if what := c08Reachable(cs.s); what != "" {
+				return infra(what)
 			}
+			outage := time.Since(tDown)
 			if kit.Bool(st["ping"]) {
 				rep.Count("up.ping", 1)
+				age := time.Since(tFail) // how long the monitor has been pinging when Redis answers again
+				for _, d := range []int{1, 2, 5} {
+					if !tFail.IsZero() && age >= time.Duration(d)*time.Second {
+						rep.Count(fmt.Sprintf("up.ping.monitor-older-than-%ds", d), 1)
+					}
+				}
 				// part of the step: the monitor pings every 100 ms of wall-clock time
 				p0 := cs.pings.Load()
-				if !kit.WaitFor(c08BarrierTime(), func() bool { return monitorIdle(tl) }) {
-					if np := cs.pings.Load() - p0; np >= 1 || c08NoReturnSeen.Load() {
-						c08NoReturnSeen.Store(true)
-						return fail(i, "C08:token:no-return",
-							fmt.Sprintf("%s step %d: Redis answered %d pings of the monitor in 10 s but the limiter did not return to it; trail %s",
-								cfg, i, np, strings.Join(trail, " ")))
-					}
-					return infra(fmt.Sprintf("step %d: monitor barrier timed out (pings seen %d)", i, cs.pings.Load()-p0))
+				switch res, probes, over := c08AwaitReturn(tl, cs); res {
+				case c08NotReturned:
+					c08NoReturnSeen.Store(true)
+					e0 := cs.evals.Load()
+					tl.AllowN(time.Unix(c08Base+now, 0), 1) // the public face of the same fact (the verdict is already negative)
+					return fail(i, "C08:token:no-return",
+						fmt.Sprintf("%s step %d: Redis answers again (%d direct PINGs of the driver in a row over %.1f s, %d pings of the limiter's monitor "+
+							"reached the server) but the limiter did not return to it: redisAlive=%d, monitorStarted=%v, a further AllowN sent %d script calls "+
+							"to Redis; the outage lasted %.1f s, the limiter had noticed it %.1f s before Redis came back; trail %s",
+							cfg, i, probes, over.Seconds(), cs.pings.Load()-p0, atomic.LoadUint32(&tl.redisAlive), c08MonitorStarted(tl),
+							cs.evals.Load()-e0, outage.Seconds(), age.Seconds(), strings.Join(trail, " ")))
+				case c08Unreachable:
+					return infra(fmt.Sprintf("step %d: the server stopped answering the driver's direct PINGs while waiting for the limiter to return", i))
 				}
 			} else {
 				rep.Count("up.noping", 1)
@@ -850,29 +1040,88 @@ func runC08Token(c kit.Case, cs *c08Server, store *redis.Redis, rep *kit.Reporte
 	return v
 }
 
-func TestVerifC08Token(t *testing.T) {
-	cases, rep, shard, shards := c08Setup(t)
-	defer rep.Close()
-	s, err := miniredis.Run()
-	if err != nil {
-		t.Fatal(err)
-	}
-	defer s.Close()
-	cs := &c08Server{s: s}
-	cs.hook()
-	store := redis.New(s.Addr())
-	for _, c := range cases {
-		if c.Index%shards != shard {
-			continue
+// c08TokenWorker replays behaviours one after the other on a server of its own.  A server that cannot be brought
+// back after an outage (port lost for good) is replaced and the behaviour replayed; only repeated loss is reported
+// (as harness trouble).
+func c08TokenWorker(cases <-chan kit.Case, rep *kit.Reporter, dropOdd bool) {
+	var s *miniredis.Miniredis
+	var cs *c08Server
+	var store *redis.Redis
+	fresh := func() error {
+		if s != nil {
+			s.Close()
 		}
+		var err error
+		if s, err = miniredis.Run(); err != nil {
+			return err
+		}
+		cs = &c08Server{s: s}
+		cs.hook()
+		store = redis.New(s.Addr())
+		return nil
+	}
+	if err := fresh(); err != nil {
+		rep.Put(kit.Verdict{Infra: true, Msg: "miniredis: " + err.Error()})
+		return
+	}
+	defer func() { s.Close() }()
+	replaced := 0
+	for c := range cases {
 		if c08RealBreaker() {
 			store = redis.New(s.Addr()) // a breaker without history for every behaviour
 		}
-		rep.Put(runC08TokenRetry(c, cs, store, rep))
-		if cs.lost != "" {
-			// without a server every further behaviour would "disagree": stop, as harness trouble
-			rep.Put(kit.Verdict{Case: c.Index, Infra: true, Msg: cs.lost})
-			break
+		for {
+			cs.dropMode = dropOdd && c.Index%2 == 1
+			v := runC08TokenRetry(c, cs, store, rep)
+			if cs.lost == "" {
+				rep.Put(v)
+				break
+			}
+			lost := cs.lost
+			rep.Count("server-replaced", 1)
+			if replaced++; replaced > 3 {
+				rep.Put(kit.Verdict{Case: c.Index, Infra: true, Msg: lost})
+				return
+			}
+			if err := fresh(); err != nil {
+				rep.Put(kit.Verdict{Case: c.Index, Infra: true, Msg: lost + "; miniredis: " + err.Error()})
+				return
+			}
+			if v.Key != "" && !v.Infra {
+				// the behaviour had been judged before the server was lost in the clean-up: the verdict stands
+				rep.Put(v)
+				break
+			}
 		}
 	}
+}
+
+// TestVerifC08Token.  VERIF_PAR = n > 1: n workers, each with a server of its own, replay the behaviours of this
+// shard side by side - for the outage-duration family, whose behaviours mostly wait (hold steps of seconds of real
+// time); there every other behaviour has its outages as dropped connections instead of Close/Restart.
+func TestVerifC08Token(t *testing.T) {
+	cases, rep, shard, shards := c08Setup(t)
+	defer rep.Close()
+	par := kit.EnvInt("VERIF_PAR", 1)
+	if par < 1 {
+		par = 1
+	}
+	ch := make(chan kit.Case)
+	var wg sync.WaitGroup
+	for w := 0; w < par; w++ {
+		wg.Add(1)
+		go func() {
+			defer wg.Done()
+			c08TokenWorker(ch, rep, par > 1)
+			for range ch { // a worker that gave up: do not block the feeder
+			}
+		}()
+	}
+	for _, c := range cases {
+		if c.Index%shards == shard {
+			ch <- c
+		}
+	}
+	close(ch)
+	wg.Wait()
 }
